@@ -44,6 +44,29 @@ func newPlotterQueue() *plotterQueue {
 	}
 }
 
+// Push, Empty and Size hide the unsynchronised methods of the embedded queue:
+// the plotter calls them while stop/remove/delete requests run Delete.
+func (pq *plotterQueue) Push(data interface{}, priority float32) {
+	pq.Lock()
+	defer pq.Unlock()
+
+	pq.Prque.Push(data, priority)
+}
+
+func (pq *plotterQueue) Empty() bool {
+	pq.Lock()
+	defer pq.Unlock()
+
+	return pq.Prque.Empty()
+}
+
+func (pq *plotterQueue) Size() int {
+	pq.Lock()
+	defer pq.Unlock()
+
+	return pq.Prque.Size()
+}
+
 func (pq *plotterQueue) Pop() (*queuedWorkSpace, float32) {
 	pq.Lock()
 	defer pq.Unlock()
@@ -72,7 +95,7 @@ func (pq *plotterQueue) Delete(sid string) {
 	defer pq.Unlock()
 
 	newQueue := prque.New()
-	for !pq.Empty() {
+	for !pq.Prque.Empty() {
 		qws, priority := pq.Prque.Pop()
 		if qws.(*queuedWorkSpace).ws.id.String() == sid {
 			continue
